@@ -200,7 +200,7 @@ func confirmPair(p pathSpec, dev twin.Deviation) (twin.PathResult, twin.PathResu
 func run(r *engine.Run) {
 	quick := r.Quick()
 	deadline := r.Deadline(8*gotime.Minute, 60*gotime.Minute)
-	r.Bound = "bases {plain, busy}; busy: all sequences of 2 blocks with 0-1 tx from the 90-tx cross-module alphabet (valid + adversarial variants of every message type); plain: 1 block; every map iteration executed in repository code on the block goroutine deviated to every start position (1 deviation); wall clock skewed +-1h; every numeric/decimal/coin module parameter at {smallest, 1, largest of its type, percentage corners} one at a time if accepted by MsgUpdateParams, followed by a 6-block workload"
+	r.Bound = "(plus: a replica that Simulates every alphabet tx and six authority parameter updates on discarded branches before each block) bases {plain, busy}; busy: all sequences of 2 blocks with 0-1 tx from the 90-tx cross-module alphabet (valid + adversarial variants of every message type); plain: 1 block; every map iteration executed in repository code on the block goroutine deviated to every start position (1 deviation); wall clock skewed +-1h; every numeric/decimal/coin module parameter at {smallest, 1, largest of its type, percentage corners} one at a time if accepted by MsgUpdateParams, followed by a 6-block workload"
 	r.Assumptions = []string{
 		"map iteration order: replica A forces start (bucket 0, offset 0) for every iteration on the block goroutine; replica B deviates one iteration whose range statement is in repository code; iterations in upstream code (SDK, CometBFT, IAVL) are executed canonically in both replicas (thorough deviates a bounded number of them too)",
 		"goroutines: repository consensus code starts none (static scan of go statements, listed in the evidence); goroutines of upstream iterator plumbing are not controlled",
@@ -423,6 +423,68 @@ func run(r *engine.Run) {
 	}
 	gotime.VerifClockSkewSec = 0
 	tally.Saw("clock-skew-replicas-equal")
+
+	// --- (c2) discarded simulations: a node that is asked to simulate transactions (gRPC Simulate: real runTx on a
+	// discarded branch, signatures not verified, so authority messages too) must finalize the same blocks identically
+	simList := append([]*twin.TxGen{}, alphaBusy...)
+	simList = append(simList, AuthoritySims(nil, busy.Info)...)
+	var simIdx []pathSpec
+	for _, g := range append([]string{""}, namesBusy[1:]...) {
+		simIdx = append(simIdx, mkPath(busy, idxBusy, g, "", ""))
+	}
+	simOK := 0
+	complete = engine.ParallelFor(int64(len(simIdx)), 0, deadline, func(_ int, j int64) {
+		p := simIdx[j]
+		exclusive.RLock()
+		ra := twin.RunPath(p.base, p.blocks, twin.Deviation{Index: -1}, false)
+		withSims := make([]twin.Block, len(p.blocks))
+		copy(withSims, p.blocks)
+		for i := range withSims {
+			withSims[i].Sims = simList
+		}
+		rs := twin.RunPath(p.base, withSims, twin.Deviation{Index: -1}, false)
+		exclusive.RUnlock()
+		tally.Eval()
+		tally.Eval()
+		if ok, why := twin.Equal(ra, rs); !ok {
+			exclusive.Lock()
+			ra2 := twin.RunPath(p.base, p.blocks, twin.Deviation{Index: -1}, false)
+			rs2 := twin.RunPath(p.base, withSims, twin.Deviation{Index: -1}, false)
+			exclusive.Unlock()
+			if same, _ := twin.Equal(ra2, rs2); same {
+				tally.Saw("harness-flake:replica-difference-not-reproduced")
+				return
+			}
+			// find the simulated transaction that matters (smallest single one), for the fingerprint
+			culprit := "several"
+			for _, g := range simList {
+				one := make([]twin.Block, len(p.blocks))
+				copy(one, p.blocks)
+				for i := range one {
+					one[i].Sims = []*twin.TxGen{g}
+				}
+				exclusive.Lock()
+				r1 := twin.RunPath(p.base, one, twin.Deviation{Index: -1}, false)
+				exclusive.Unlock()
+				if eq, _ := twin.Equal(ra2, r1); !eq {
+					culprit = g.Name
+					break
+				}
+			}
+			tally.Violate(map[string]any{"base": p.base.Name, "blocks": p.names, "simulated_before_each_block": culprit}, p.names,
+				"C02/nondeterminism:discarded-simulation-influences-blocks:"+culprit, fmt.Sprintf("a node that simulated %s before finalizing differs from one that did not: %s", culprit, why))
+			return
+		}
+		dmu.Lock()
+		simOK++
+		dmu.Unlock()
+	})
+	if !complete {
+		r.Exhaustive = false
+		r.CapReasons = append(r.CapReasons, "simulation replicas: time cap")
+	}
+	tally.Saw("simulation-replicas-equal")
+	fmt.Printf("[C02] simulation replicas: %d paths x %d simulated txs, %d equal\n", len(simIdx), len(simList), simOK)
 
 	// --- (d) parameter corners ---
 	probe := busy.NewApp()
